@@ -267,4 +267,59 @@ example : (run init [.send .send 0 4, .quiet (.sinkClose 0), .quiet (.sinkReady 
     some [.sent true none, .readyOk, .readyOk, .debug [4] true, .sent true none, .debug [4, 5] true, .closed none,
       .debug [4, 5] false] := by decide
 
+/-- **A receiver parked on a channel whose last sender is overwritten by `clone_from` is woken** (the
+old value of the handle is dropped), whichever channel the source belongs to, and the overwritten
+channel's stream then ends. -/
+theorem parked_woken_by_clone_from (p p' : Pair) (si sj : Side) (i j : Nat) (w : WakerId) (os : List Obs)
+    (hr : Reach (p.get si)) (hp : (p.get si).parked = some w) (ha : (p.get si).recvAlive = true)
+    (hlast : (p.get si).senders.length = 1)
+    (hs : Pair.step p (.cloneFrom si i sj j) = some (p', os)) :
+    si ≠ sj ∧ os.head? = some (.senderDropped (some w)) ∧ (p'.get si).parked = none ∧ (p'.get si).senders = [] := by
+  simp only [Pair.step] at hs
+  split at hs
+  · simp at hs
+  · rename_i hne
+    split at hs
+    · simp at hs
+    · rename_i c1 o1 hd
+      split at hs
+      · simp at hs
+      · rename_i c2 o2 hc
+        simp only [Option.some.injEq, Prod.mk.injEq] at hs; obtain ⟨hp', ho⟩ := hs; subst hp'; subst ho
+        obtain ⟨ho1, hpk⟩ := parked_woken_by_last_sender_drop (p.get si) c1 w i o1 hr hp ha hlast hd
+        obtain ⟨hi, herase⟩ := dropSender_senders hd
+        have hc1 : c1.senders = [] := by
+          rw [herase]
+          match hsl : (p.get si).senders, hlast with
+          | [x], _ => rw [hsl] at hi; simp at hi; subst hi; simp
+        have hsij : si ≠ sj := by
+          intro heq; subst heq
+          rw [get_set_same] at hc
+          simp only [step] at hc; split at hc
+          · rename_i hj; rw [hc1] at hj; simp at hj
+          · simp at hc
+        refine ⟨hsij, by simp [ho1], ?_, ?_⟩
+        · rw [get_set_other _ _ _ _ hsij, get_set_same]; exact hpk
+        · rw [get_set_other _ _ _ _ hsij, get_set_same]; exact hc1
+
+example : (Pair.step {} (.on .a (.poll .pollNext 2))).bind (fun q => Pair.step q.1 (.cloneFrom .a 0 .b 0)) =
+    some ({ a := { init with senders := [] }, b := { init with senders := [1, 0], nextSender := 2 } },
+      [.senderDropped (some 2), .sender 1]) := by decide
+/-- within one channel the overwritten handle is never the last sender: nobody is woken -/
+example : ((Pair.step {} (.on .a (.clone 0))).bind (fun q => Pair.step q.1 (.on .a (.poll .recv 1)))).bind
+      (fun q => Pair.step q.1 (.cloneFrom .a 0 .a 1)) =
+    some ({ a := { init with senders := [2, 1], nextSender := 3, blocked := { waker := some 1 } } },
+      [.senderDropped none, .sender 2]) := by decide
+example : Pair.step {} (.cloneFrom .a 0 .a 0) = none := by decide
+
+/-- In a pair of channels (with `clone_from` moving sender handles between them) each channel only ever
+makes steps of the one-channel model: it stays reachable from `channel()`, so **every theorem above
+holds of each of the two channels**, whatever is done with the other one. -/
+theorem pair_channels_stay_reachable (p p' : Pair) (op : POp) (os : List Obs)
+    (hs : Pair.step p op = some (p', os)) (h : ∀ s, Reach (p.get s)) : ∀ s, Reach (p'.get s) :=
+  pair_step_reach p p' op os hs h
+
+example : ∀ s, Reach ((({} : Pair)).get s) := by
+  intro s; cases s <;> exact ⟨[], [], rfl⟩
+
 end ActixNet.C16
